@@ -2399,8 +2399,9 @@ class PGPKey(Armorable, ParentRef, PGPObject):
 
     def check_management(self, self_verifying=False):
         res = self.self_verified
-        if self.is_expired:
-            warnings.warn('Key {} has expired at {:s}'.format(repr(self), self.expires_at))
+        if self.is_expired or (self.parent is not None and self.parent.is_expired):
+            # a subkey carries no user ids of its own: it is expired when its primary key is
+            warnings.warn('Key {} or its primary key has expired'.format(repr(self)))
             res |= SecurityIssues.Expired
 
         warnings.warn("TODO: Revocation checks are not yet implemented!!!")
